@@ -8,6 +8,8 @@ AllKinds == {"int", "real", "name", "kw", "str", "hex", "ref", "arr", "dict", "s
 SomeKinds == {"int", "dict", "istream"}
 MostKinds == {"int", "str", "ref", "dict", "stream", "istream", "mstreamT", "mstreamE"}
 MarkerKinds == {"int", "dict", "mstreamT", "mstreamE"}
+LengthKinds == {"int", "istream", "aistream"}
+TableOnly == {"table"}
 BothTails == {"table", "xrefstm"}
 AllDamages == {"xrefbody", "xrefdata", "startxref"}
 =============================================================================
